@@ -18,8 +18,8 @@ use std::path::{Path, PathBuf};
 
 pub const NF: usize = 3;
 pub const NAME_CAP: usize = 64;
-pub const FCAP: usize = 1024;
-pub const PATCH_CAP: usize = 1280;
+pub const FCAP: usize = 2304;
+pub const PATCH_CAP: usize = 1536;
 pub const ND: usize = 6;
 
 pub struct FsState {
@@ -180,6 +180,13 @@ impl File {
         s.mutations += 1;
         Ok(())
     }
+    pub fn metadata(&self) -> io::Result<Metadata> {
+        let s = fs();
+        let total = if self.patch != 0 { s.patch_len } else { s.len[self.slot] };
+        Ok(Metadata { dir: 0, len: total as u64 })
+    }
+    pub fn sync_all(&self) -> io::Result<()> { Ok(()) }
+    pub fn sync_data(&self) -> io::Result<()> { Ok(()) }
     fn do_read(&self, buf: &mut [u8]) -> usize {
         let s = fs();
         let p = self.pos.get() as usize;
@@ -328,16 +335,17 @@ fn dir_exists_prefix(d: usize, b: &[u8]) -> bool {
     s.dir_len[d] == b.len() || s.dir[d][b.len()] == b'/'
 }
 
-pub struct Metadata { dir: bool, len: u64 }
+// integer flag, not bool: a bool would give `io::Result<Metadata>` a niche layout (see File)
+pub struct Metadata { dir: usize, len: u64 }
 impl Metadata {
-    pub fn is_dir(&self) -> bool { self.dir }
-    pub fn is_file(&self) -> bool { !self.dir }
+    pub fn is_dir(&self) -> bool { self.dir != 0 }
+    pub fn is_file(&self) -> bool { self.dir == 0 }
     pub fn len(&self) -> u64 { self.len }
 }
 pub fn metadata<P: AsRef<Path>>(p: P) -> io::Result<Metadata> {
     let b = path_bytes(p.as_ref());
-    if let Some(slot) = lookup(b) { return Ok(Metadata { dir: false, len: fs().len[slot] as u64 }); }
-    if dir_exists(b) { return Ok(Metadata { dir: true, len: 0 }); }
+    if let Some(slot) = lookup(b) { return Ok(Metadata { dir: 0, len: fs().len[slot] as u64 }); }
+    if dir_exists(b) { return Ok(Metadata { dir: 1, len: 0 }); }
     Err(not_found())
 }
 pub fn read<P: AsRef<Path>>(p: P) -> io::Result<Vec<u8>> {
@@ -356,7 +364,7 @@ pub fn read<P: AsRef<Path>>(p: P) -> io::Result<Vec<u8>> {
 
 pub struct DirEntry { path: PathBuf, dir: bool, len: u64 }
 impl DirEntry {
-    pub fn metadata(&self) -> io::Result<Metadata> { Ok(Metadata { dir: self.dir, len: self.len }) }
+    pub fn metadata(&self) -> io::Result<Metadata> { Ok(Metadata { dir: self.dir as usize, len: self.len }) }
     pub fn path(&self) -> PathBuf { self.path.clone() }
 }
 pub struct ReadDir { entries: Vec<DirEntry>, next: usize }
